@@ -73,6 +73,24 @@ fn is_fallible(instr: &str) -> bool {
     instr.contains("try_")
 }
 
+/// Counterpart names for one item: mostly from the small shared pool (inputs of a world
+/// collide on names on purpose), sometimes fresh numbered names (an unbounded supply of
+/// distinct type paths: interners, caches with a capacity, tables that fill up).
+fn counterparts(rng: &mut Rng, n: usize) -> Vec<String> {
+    let mut v: Vec<String> = pick_distinct(rng, &COUNTERPARTS, n).into_iter().map(|s| s.to_string()).collect();
+    for c in v.iter_mut() {
+        if rng.chance(1, 5) {
+            *c = match rng.below(3) {
+                0 => format!("Gen{}", rng.below(5000)),
+                1 => format!("m{}::Ty{}", rng.below(50), rng.below(100)),
+                _ => format!("Dto{}<'l{}>", rng.below(5000), rng.below(9)),
+            };
+        }
+    }
+    v.dedup();
+    v
+}
+
 fn pick_distinct<'a>(rng: &mut Rng, pool: &[&'a str], n: usize) -> Vec<&'a str> {
     let mut v: Vec<&str> = pool.to_vec();
     rng.shuffle(&mut v);
@@ -85,7 +103,7 @@ fn expr(rng: &mut Rng) -> &'static str {
 }
 
 fn default_expr(rng: &mut Rng) -> &'static str {
-    *rng.pick(&["{ 1 }", "{ Default::default() }", "{ @.id.to_string() }", "{ None }", "{ vec![1, 2] }", "{ \"x\".into() }"])
+    *rng.pick(&["{ 1 }", "{ Default::default() }", "{ @.id.to_string() }", "{ None }", "{ vec![1, 2] }", "{ \"x\".into() }", "{ ~.id + 1 }", "{ (~0, [@.name.clone()]) }"])
 }
 
 struct TraitOpts {
@@ -130,8 +148,8 @@ fn trait_params(rng: &mut Rng, o: &TraitOpts) -> String {
     }
     let mut s = parts.join(", ");
     let tail = match rng.below(6) {
-        0 => Some("..Default::default()".to_string()),
-        1 if !o.enum_ctx => Some(format!("return {}", rng.pick(&["@.into_inner()", "Self::new(@.id)", "{ todo!() }"]))),
+        0 => Some(rng.pick(&["..Default::default()", "..~.clone()", "..{ let d = ~Default::default(); d }"]).to_string()),
+        1 if !o.enum_ctx => Some(format!("return {}", rng.pick(&["@.into_inner()", "Self::new(@.id)", "{ todo!() }", "~0.to_string()", "{ (~.id, @.name) }"]))),
         2 if o.enum_ctx => Some(format!("_ {}", rng.pick(&["todo!()", "panic!(\"x\")", "Err(\"no\".into())?"]))),
         3 => Some("..@.rest()".to_string()),
         _ => None,
@@ -282,7 +300,8 @@ pub fn gen_struct(rng: &mut Rng, class: Class) -> Item {
         Class::W2MultiCounterpart => rng.range(2, 4),
         _ => rng.range(1, 3),
     };
-    let cps = pick_distinct(rng, &COUNTERPARTS, n_cp);
+    let cps_owned = counterparts(rng, n_cp);
+    let cps: Vec<&str> = cps_owned.iter().map(|s| s.as_str()).collect();
     let repeat_mode = class == Class::W4Repeat;
 
     let mut bodies: Vec<String> = Vec::new();
@@ -475,7 +494,14 @@ pub fn gen_enum(rng: &mut Rng, class: Class) -> Item {
         item.generics = "<T>".into();
     }
     let primitive = rng.chance(1, 3);
-    let cps: Vec<&str> = if primitive { { let n = rng.range(1, 2); pick_distinct(rng, &["i32", "u8", "String", "u64", "char"], n) } } else { { let n = rng.range(1, 3); pick_distinct(rng, &COUNTERPARTS, n) } };
+    let cps_owned: Vec<String> = if primitive {
+        let n = rng.range(1, 2);
+        pick_distinct(rng, &["i32", "u8", "String", "u64", "char"], n).into_iter().map(|s| s.to_string()).collect()
+    } else {
+        let n = rng.range(1, 3);
+        counterparts(rng, n)
+    };
+    let cps: Vec<&str> = cps_owned.iter().map(|s| s.as_str()).collect();
     let mut bodies: Vec<String> = Vec::new();
     let mut fallible_any = false;
     for cp in &cps {
@@ -493,11 +519,15 @@ pub fn gen_enum(rng: &mut Rng, class: Class) -> Item {
         }
     }
     if rng.chance(1, 3) {
-        let n = rng.range(1, 3);
-        let vs = pick_distinct(rng, &["Ghosted", "Extra(a, b)", "More { x, y }", "Zeta"], n);
-        let data: Vec<String> = vs.iter().map(|v| format!("{}: {}", v, rng.pick(&["{ todo!() }", "{ Self::Ok }", "{ panic!(\"g\") }"]))).collect();
-        let ded = if rng.chance(1, 2) { format!("{}| ", rng.pick(&cps)) } else { String::new() };
-        bodies.push(format!("{}({}{})", rng.pick(&["ghosts", "ghosts_owned", "ghosts_ref"]), ded, data.join(", ")));
+        // 1..3 enum-level ghosts instructions (default and dedicated ones), 1..4 arms each
+        let n_instr = if rng.chance(1, 2) { 1 } else { rng.range(2, 3) };
+        for gi in 0..n_instr {
+            let n = rng.range(1, 4);
+            let vs = pick_distinct(rng, &["Ghosted", "Extra(a, b)", "More { x, y }", "Zeta", "Omega", "Psi(p)"], n);
+            let data: Vec<String> = vs.iter().map(|v| format!("{}: {}", v, rng.pick(&["{ todo!() }", "{ Self::Ok }", "{ panic!(\"g\") }", "{ Default::default() }"]))).collect();
+            let ded = if gi > 0 || rng.chance(1, 2) { format!("{}| ", rng.pick(&cps)) } else { String::new() };
+            bodies.push(format!("{}({}{})", rng.pick(&["ghosts", "ghosts", "ghosts_owned", "ghosts_ref"]), ded, data.join(", ")));
+        }
     }
     if !item.generics.is_empty() {
         where_attrs(rng, &cps, &mut bodies);
